@@ -153,20 +153,23 @@ def parse_value(s):
 
 def extract_prints(out, tag='HV'):
     """All printed tuples whose first element is the string `tag`, found by bracket matching so that
-    interleaved worker output cannot split or merge them."""
+    interleaved worker output cannot split or merge them.  Handles both PrintT(<<...>>) (pretty printed over
+    several lines) and PrintT(ToString(<<...>>)) (one quoted line with escaped quotes)."""
     res = []
-    needle = '<<"%s"' % tag
+    out = out.replace('\\"', '"')
+    pat = re.compile(r'<<\s*"%s"' % re.escape(tag))
     i = 0
     while True:
-        i = out.find(needle, i)
-        if i < 0:
+        m = pat.search(out, i)
+        if not m:
             break
+        i = m.start()
         try:
             v, used = parse_value(out[i:])
             res.append(v)
             i += used
         except (ValueError, IndexError, AttributeError):
-            i += len(needle)
+            i = m.end()
     return res
 
 
